@@ -158,7 +158,7 @@ class Unit:
         return self._src_cache[f]
 
     # -- template parsing ---------------------------------------------------
-    def generate(self, canary=False):
+    def generate(self, canary=False, stub=()):
         gen = Generated()
         tl = []
         for ln in open(self.path, encoding='utf-8').read().split('\n'):
@@ -191,6 +191,8 @@ class Unit:
                 mark = len(gen.lines)
                 nlog = len(gen.rewrite_log)
                 try:
+                    if spec.key in stub:
+                        raise Undecided(stub[spec.key] if isinstance(stub, dict) else 'rejected by Verus')
                     self.emit_fn(gen, spec, canary)
                 except (Undecided, ScanError) as e:
                     # this function could not be brought into the unit: it becomes an assumed stub with its
